@@ -1,5 +1,5 @@
 (* DrainCases.v — exchange format for the back-pressure queue model (coq/sock/Drain.v).
-   ops: 1 retries life | 2 dt | 3 on | 4 (up) | 5 (down);  initial connectivity first.
+   ops: 1 retries life | 2 dt | 3 on | 4 (up) | 5 (down) | 6 (connected, notifying) | 7 (flush);  initial connectivity first.
    out: per stimulus its events then 0; events: 1 i expiry | 2 | 3 i t | 4 i t; -9 = outside the model. *)
 From Coq Require Import ZArith List Bool.
 From PV Require Import sock.Sock sock.Drain.
@@ -16,6 +16,8 @@ Fixpoint dec_dops (fuel : nat) (l : list Z) : list dop :=
     | 3 :: b :: t => DBp (negb (b =? 0)) :: dec_dops f t
     | 4 :: t => DUp :: dec_dops f t
     | 5 :: t => DDown :: dec_dops f t
+    | 6 :: t => DConn :: dec_dops f t
+    | 7 :: t => DFlush :: dec_dops f t
     | _ => []
     end
   end.
